@@ -31,7 +31,7 @@ ASSUMPTIONS = ['tokenize COMMENT tokens delimit what is "inside a # comment"; as
 BUDGET = {'quick': {'random': 8000, 'shards': 16}, 'thorough': {'random': 300000, 'shards': 16}}
 FUZZ = {'runs': 30000}   # thorough tier: 16 atheris campaigns of this many executions over the same strategy and oracle
 
-TEXTS = ['x', 'a\n\nb', "it's # (k: v, [", 'w1 w2 w3 w4 w5 w6 w7', '  lead\n  \ntrail  ', '"\\']
+TEXTS = ['first line\rsecond line', 'one\r\ntwo\x0cthree\u2028four', 'x', 'a\n\nb', "it's # (k: v, [", 'w1 w2 w3 w4 w5 w6 w7', '  lead\n  \ntrail  ', '"\\']
 LEAVES = [['int', 1], ['str', 'a b'], ['tuple', []]]
 SUPPORTS_TRAILING = ('list', 'tuple', 'set', 'dict', 'call:nt', 'call:ns')
 
